@@ -97,6 +97,16 @@ type Gate struct {
 	// optional wrapped standard context (context.WithCancel / WithDeadline): Done/Err/Deadline answer from it
 	inner       context.Context
 	innerCancel context.CancelFunc
+	valueParent context.Context
+}
+
+// NewGateWithLiveAncestor: a stand-alone gate (own Done channel / Err) whose Value() delegates to a live standard
+// cancellable ancestor. The returned stop function releases the ancestor at the end of the scenario.
+func NewGateWithLiveAncestor(st *SiteTable) (*Gate, context.CancelFunc) {
+	parent, stop := context.WithCancel(context.Background())
+	g := NewGate(st)
+	g.valueParent = parent
+	return g, stop
 }
 
 // NewGateWrapping makes a gate around a standard library context: the interception is the gate's,
@@ -117,7 +127,20 @@ func (g *Gate) Deadline() (time.Time, bool) {
 	}
 	return time.Time{}, false
 }
-func (g *Gate) Value(any) any { return nil }
+
+// Value: a hand-written context usually delegates Value to the context it was derived from. valueParent, when
+// set, is such an ancestor - a standard cancellable context that is still LIVE while this gate is done (legal: a
+// context may end before its ancestors). Code that asks the standard library about "the" cancellation through
+// Value (context.Cause) then hears about the ancestor, not about this context; only Err() is this context's answer.
+func (g *Gate) Value(k any) any {
+	if g.inner != nil {
+		return g.inner.Value(k)
+	}
+	if g.valueParent != nil {
+		return g.valueParent.Value(k)
+	}
+	return nil
+}
 
 func classify(fn string) byte {
 	switch {
@@ -133,12 +156,26 @@ func classify(fn string) byte {
 
 // intercept identifies the caller of Done()/Err(), runs the hook, and parks the caller if the site is armed.
 func (g *Gate) intercept() {
-	var pcs [1]uintptr
+	// the call site is the line of the immediate caller; the function kind is that of the nearest enclosing
+	// startQueue / startWorker / PushTask on the stack, so a helper extracted from one of them (nextTask(), ...)
+	// keeps its park points
+	var pcs [8]uintptr
 	key := "X?"
-	if runtime.Callers(3, pcs[:]) == 1 {
-		fr, _ := runtime.CallersFrames(pcs[:]).Next()
-		if k := classify(fr.Function); k != 'X' {
-			key = g.st.key(k, fr.Line, g.ErrNow() == nil)
+	if n := runtime.Callers(3, pcs[:]); n > 0 {
+		frames := runtime.CallersFrames(pcs[:n])
+		line := -1
+		for {
+			fr, more := frames.Next()
+			if line < 0 {
+				line = fr.Line
+			}
+			if k := classify(fr.Function); k != 'X' {
+				key = g.st.key(k, line, g.ErrNow() == nil)
+				break
+			}
+			if !more || !strings.Contains(fr.Function, "glb/tasklane.") {
+				break
+			}
 		}
 	}
 	g.mu.Lock()
